@@ -54,15 +54,16 @@ TAGS = {
     "send.full:sub": {"C10"},
     "send.pop:sub": {"C10"},
     "send.end:sub": {"C10", "C14"},
-    "cb:reduce": {"C01", "C02", "C07", "C12", "C05", "C06", "C11"},
-    "cb:before_reduce": {"C12", "C07", "C02"},
-    "cb:before_effect": {"C12", "C07", "C11"},
-    "cb:before_dispatch": {"C12", "C07", "C03"},
+    # every scripted callback also records what get_state() returns inside it (C08)
+    "cb:reduce": {"C01", "C02", "C07", "C12", "C05", "C06", "C11", "C08"},
+    "cb:before_reduce": {"C12", "C07", "C02", "C08"},
+    "cb:before_effect": {"C12", "C07", "C11", "C08"},
+    "cb:before_dispatch": {"C12", "C07", "C03", "C08"},
     "cb:on_error": {"C12"},
     "cb:notify": {"C03", "C07", "C08", "C09", "C10", "C12"},
     "cb:change": {"C16", "C09", "C07"},
     "cb:unsub": {"C09", "C10", "C04"},
-    "cb:effect": {"C11", "C12"},
+    "cb:effect": {"C11", "C12", "C08"},
     "loop.wait": {"C01", "C02", "C05", "C06", "C07", "C12", "C03", "C11", "C18"},
     "loop.wrote": {"C01", "C08", "C12", "C07"},
     "eff.spawn": {"C11", "C12", "C07"},
